@@ -3,7 +3,7 @@
 // Round 6, area K: contracts for apps/nsqadmin (C17 C18): the flag set (every flag's default is the value of the SAME option of
 // NewOptions(); C17: admin list, ACL header, /config CIDR), option resolution before New, a failed New is fatal, Main started once,
 // Exit only through the Once. Comment-only file. Assumed library contracts: .trusted/r6K.spec, r5I.spec and the in-package externs below.
-// logFatal has no contract (never returns; inlined down to os.Exit - see apps/nsqlookupd/zz_contracts_r6K_verif.go).
+// logFatal: `noreturn` contract in zz_contracts_r7_verif.go (round 7).
 
 package main
 
